@@ -231,6 +231,20 @@ def world_view(obs, w, contacts=True, efc=True):
   for name, a in obs.items():
     if isinstance(a, np.ndarray) and not name.startswith("_"):
       v[name] = a[w]
+  if "actuator_moment" in v and "moment_rowadr" in v:
+    # rows of the sparse actuator moment are allocated with an atomic counter: the layout depends on thread order, the matrix does not
+    nu, nv = v["moment_rowadr"].shape[0], obs["_nv"]
+    dense = np.zeros((nu, nv), dtype=np.float32)
+    am, ci = v["actuator_moment"], v["moment_colind"]
+    for a in range(nu):
+      adr, nnz = int(v["moment_rowadr"][a]), int(v["moment_rownnz"][a])
+      if 0 <= adr and 0 <= nnz and adr + nnz <= am.shape[0]:
+        np.add.at(dense[a], ci[adr : adr + nnz], am[adr : adr + nnz])
+      else:
+        dense[a] = np.nan
+    v["actuator_moment"] = dense
+    for k in ("moment_rowadr", "moment_rownnz", "moment_colind"):
+      v["_layout." + k] = v.pop(k)
   if contacts:
     c = obs["contact"]
     sel = c["worldid"] == w
@@ -444,3 +458,94 @@ def _jsd(o):
   if isinstance(o, np.ndarray):
     return o.tolist()
   raise TypeError(type(o))
+
+
+# ---------------------------------------------------------------------------------------------------------------
+# canonical (listing-order independent) view of one world, and tolerance comparison
+
+
+def canon_view(obs, w):
+  """world_view with contacts and constraint rows put in a canonical order (keyed multisets, DESIGN A3)."""
+  v = world_view(obs, w)
+  n = int(v["contact.count"][0])
+  if n:
+    g = v["contact.geom"]
+    key = np.lexsort((np.round(v["contact.dist"].astype(np.float64), 5), v["contact.geomcollisionid"], g[:, 1], g[:, 0]))
+  else:
+    key = np.zeros(0, dtype=int)
+  for f in CONTACT_FIELDS:
+    if "contact." + f in v and v["contact." + f].shape[0] == n:
+      v["contact." + f] = v["contact." + f][key]
+  rank_of_listing = np.empty(n, dtype=int)
+  rank_of_listing[key] = np.arange(n)
+  # rows: efc.id of contact rows currently holds the listing rank of the contact (see world_view)
+  t = v["efc.type"]
+  ids = v["efc.id"].copy()
+  crow = t >= CONTACT_TYPE_MIN
+  ok = crow & (ids >= 0) & (ids < n)
+  ids[ok] = rank_of_listing[ids[ok]]
+  order = np.lexsort((np.arange(t.shape[0]), ids, t))  # stable within one (type, id) block
+  for f in EFC_ROW_FIELDS + EFC_PAD_FIELDS + ["J"]:
+    v["efc." + f] = v["efc." + f][order]
+  v["efc.id"] = ids[order]
+  return v
+
+
+# sampled sensor values are differences of large body-level quantities: their error scales with those, not with the sample itself
+_GF = ("qfrc_smooth", "qfrc_bias", "qfrc_constraint", "qfrc_actuator", "qfrc_passive")
+_GA = ("qacc", "qacc_smooth")
+SCALE_WITH = {"history": ("sensordata", "cfrc_int", "cacc", "qfrc_constraint"), "sensordata": ("cfrc_int", "cacc", "qfrc_constraint"),
+              "qfrc_constraint": _GF, "qfrc_smooth": _GF, "qfrc_bias": _GF, "qfrc_actuator": _GF, "qfrc_passive": _GF, "qfrc_spring": _GF,
+              "qfrc_damper": _GF, "qfrc_gravcomp": _GF, "qfrc_fluid": _GF, "efc.force": _GF, "qacc": _GA, "qacc_smooth": _GA,
+              "qacc_warmstart": _GA, "act_dot": ("act",), "cfrc_ext": ("cfrc_int",), "efc.aref": ("efc.aref", "qacc_smooth"),
+              "efc.vel": ("qvel",)}
+
+
+def tol_diff(va, vb, state_level, rtol_state=1e-4, rtol_force=5e-3, atol=1e-5, skip=(), exact_int=(), stats=None, tag="tol"):
+  """Fields of va that differ from vb beyond tolerance. Returns list of (field, info)."""
+  bad = []
+  worst = 0.0
+  for k in va:
+    if k in skip or k not in vb:
+      continue
+    x, y = va[k], vb[k]
+    if x.shape != y.shape:
+      bad.append((k, {"shape": [list(x.shape), list(y.shape)]}))
+      continue
+    if x.dtype.kind != "f":
+      if k in exact_int and not np.array_equal(x, y):
+        bad.append((k, first_diff(x, y)))
+      continue
+    if x.size == 0:
+      continue
+    xf, yf = x.astype(np.float64), y.astype(np.float64)
+    fx, fy = np.isfinite(xf), np.isfinite(yf)
+    if not np.array_equal(fx, fy):
+      i = tuple(int(q) for q in np.argwhere(fx != fy)[0])
+      bad.append((k, {"nonfinite": True, "index": list(i), "a": _js(x[i]), "b": _js(y[i])}))
+      continue
+    if not fx.all():
+      xf, yf = np.where(fx, xf, 0.0), np.where(fy, yf, 0.0)
+    rt = rtol_state if k in state_level else rtol_force
+    scale = float(np.max(np.abs(yf)))
+    for other in SCALE_WITH.get(k, ()):
+      if other in vb and vb[other].size and vb[other].dtype.kind == "f":
+        o = vb[other].astype(np.float64)
+        scale = max(scale, float(np.max(np.abs(np.where(np.isfinite(o), o, 0.0)))))
+    tol = atol + rt * max(1e-3, scale)
+    err = float(np.max(np.abs(xf - yf)))
+    worst = max(worst, err / tol)
+    if err > tol:
+      i = tuple(int(q) for q in np.unravel_index(int(np.argmax(np.abs(xf - yf))), xf.shape))
+      bad.append((k, {"err": err, "tol": tol, "index": list(i), "a": _js(x[i]), "b": _js(y[i])}))
+  if stats is not None:
+    key = tag + "_worst_err_over_tol_x1000"
+    stats["faults"][key] = max(stats["faults"].get(key, 0), int(worst * 1000))
+  return bad
+
+
+STATE_LEVEL = {"qpos", "qvel", "act", "time", "xpos", "xquat", "xmat", "xipos", "ximat", "geom_xpos", "geom_xmat", "site_xpos", "site_xmat",
+               "cam_xpos", "cam_xmat", "light_xpos", "light_xdir", "subtree_com", "cinert", "cdof", "ten_length", "actuator_length",
+               "ctrl", "mocap_pos", "mocap_quat", "userdata", "qfrc_applied", "xfrc_applied", "xanchor", "xaxis", "ten_J", "actuator_moment",
+               "crb", "M", "contact.dist", "contact.pos", "contact.frame", "contact.includemargin", "contact.friction", "contact.solref",
+               "contact.solreffriction", "contact.solimp", "efc.pos", "efc.margin", "efc.J", "energy", "flexvert_xpos"}
